@@ -895,7 +895,24 @@ fn tour_step(case: &Value) {
 fn group_state(case: &Value) {
     use vrp_core::construction::features::{create_group_feature, create_minimize_tours_feature, JobGroupDimension};
     let routes_doc = case["routes"].as_array().unwrap();
-    let vehicles: Vec<Arc<Vehicle>> = (0..routes_doc.len())
+    let same_vehicle = case.get("same_vehicle").and_then(|v| v.as_bool()).unwrap_or(false);
+    let insertion = case.get("refresh").and_then(|v| v.as_str()) == Some("insertion");
+    let vehicles: Vec<Arc<Vehicle>> = if same_vehicle {
+        // ONE vehicle id with one shift per route: Fleet::new makes one actor per shift
+        let mut dimens = Dimensions::default();
+        dimens.set_vehicle_id("v".to_string());
+        vec![Arc::new(Vehicle {
+            profile: Profile::default(),
+            costs: costs(&Value::Null),
+            dimens,
+            details: (0..routes_doc.len())
+                .map(|i| VehicleDetail {
+                    start: Some(VehiclePlace { location: 0, time: TimeInterval { earliest: Some(1000. * i as Float), latest: None } }),
+                    end: Some(VehiclePlace { location: 0, time: TimeInterval { earliest: None, latest: Some(1000. * i as Float + 999.) } }),
+                })
+                .collect(),
+        })]
+    } else { (0..routes_doc.len())
         .map(|i| {
             let mut dimens = Dimensions::default();
             dimens.set_vehicle_id(format!("v{i}"));
@@ -909,7 +926,7 @@ fn group_state(case: &Value) {
                 }],
             })
         })
-        .collect();
+        .collect() };
     let driver = Driver { costs: costs(&Value::Null), dimens: Default::default(), details: vec![] };
     let fleet = Fleet::new(vec![Arc::new(driver)], vehicles, |_| |_| 0);
     let mk_single = |group: &Value| {
@@ -930,10 +947,12 @@ fn group_state(case: &Value) {
     let mut routes = vec![];
     for (i, r) in routes_doc.iter().enumerate() {
         let mut rc = RouteContext::new(fleet.actors[i].clone());
-        for g in r["groups"].as_array().unwrap() {
+        let groups = r["groups"].as_array().unwrap();
+        let upto = if insertion && i == 0 { groups.len() - 1 } else { groups.len() };
+        for g in groups.iter().take(upto) {
             rc.route_mut().tour.insert_last(Activity::new_with_job(mk_single(g)));
         }
-        if !r["stale"].as_bool().unwrap() {
+        if insertion || !r["stale"].as_bool().unwrap() {
             // a route that was refreshed on its own and not touched since: not stale
             goal.accept_route_state(&mut rc);
         }
@@ -951,8 +970,20 @@ fn group_state(case: &Value) {
         state: Default::default(),
     };
     let stale_before: Vec<bool> = solution_ctx.routes.iter().map(|rc| rc.is_stale()).collect();
-    goal.accept_solution_state(&mut solution_ctx);
-    let verdict = goal.evaluate(&MoveContext::route(&solution_ctx, &solution_ctx.routes[0], &job));
+    if insertion {
+        // every route was refreshed on its own; now the last job of route 0 arrives and only the insertion callback runs
+        goal.accept_solution_state(&mut solution_ctx);
+        // route 0 is refreshed on its own afterwards (its tag is cleared, the group state has no route-level refresh); the others keep theirs
+        let _ = solution_ctx.routes[0].route_mut(); // touched: stale, so the route-level refresh really runs
+        goal.accept_route_state(&mut solution_ctx.routes[0]);
+        let last = mk_single(routes_doc[0]["groups"].as_array().unwrap().last().unwrap());
+        solution_ctx.routes[0].route_mut().tour.insert_last(Activity::new_with_job(last.clone()));
+        goal.accept_insertion(&mut solution_ctx, 0, &Job::Single(last));
+    } else {
+        goal.accept_solution_state(&mut solution_ctx);
+    }
+    let target = if insertion { solution_ctx.routes.len() - 1 } else { 0 };
+    let verdict = goal.evaluate(&MoveContext::route(&solution_ctx, &solution_ctx.routes[target], &job));
     println!("{}", serde_json::to_string(&json!({"rejected": verdict.is_some(), "stale_before": stale_before})).unwrap());
 }
 
